@@ -49,6 +49,9 @@ type formatter struct {
 	// If true, a space will be written to the output unless the next character
 	// written is a newline (don't wait errant trailing spaces).
 	pendingSpace bool
+	// If true, a '//' comment was written in the middle of a line, so a
+	// newline must be written before anything else is.
+	pendingNewline bool
 	// If true, the formatter is in the middle of printing compact options.
 	inCompactOptions bool
 
@@ -156,6 +159,19 @@ func (f *formatter) Indent(nextNode ast.Node) {
 // This will not write indentation or newlines. Use P if you
 // want to emit indentation or newlines.
 func (f *formatter) WriteString(elem string) {
+	if f.pendingNewline && len(elem) > 0 {
+		f.pendingNewline = false
+		if !strings.HasPrefix(elem, "\n") {
+			// Continue on the next line.
+			f.pendingSpace = false
+			f.lastWritten = '\n'
+			if _, err := f.writer.Write([]byte{'\n'}); err != nil {
+				f.err = errors.Join(f.err, err)
+				return
+			}
+			f.Indent(nil)
+		}
+	}
 	if f.pendingSpace {
 		f.pendingSpace = false
 		first, _ := utf8.DecodeRuneInString(elem)
@@ -2151,6 +2167,14 @@ func (f *formatter) writeInlineComments(comments ast.Comments) {
 			f.Space()
 		}
 		text := comments.Index(i).RawText()
+		if strings.HasPrefix(text, "//") && strings.Contains(text, "*/") {
+			// This comment cannot be transformed to a C-style comment, since
+			// it would end at the first "*/". Write it as is, whatever is
+			// written next goes to the next line.
+			f.WriteString(strings.TrimSpace(text))
+			f.pendingNewline = true
+			continue
+		}
 		if strings.HasPrefix(text, "//") {
 			text = strings.TrimSpace(strings.TrimPrefix(text, "//"))
 			text = "/* " + text + " */"
